@@ -721,6 +721,43 @@ def e2g(fb, rep):
                     rep.violation(R, "stack-limit-writer|%s" % b.id, "%s writes Stack.max_stack_size" % b.id, "%s:%s" % (b.file, line))
 
 
+def e2i(fb, rep):
+    """E2i — an allocation is refused for the memory limit only after a collection was attempted.  `check_collect` collects when
+    `allocated_memory >= collect_limit`, and `collect_limit` is twice the live memory after the last collection — which may lie
+    above `memory_limit`.  Then the garbage of a failed run is never collected: `alloc_owned` answers OutOfMemory for every later
+    program until the host collects by hand.  Rule: in `Gc::alloc_and_collect`, a comparison that involves `Gc.memory_limit`
+    lies before `check_collect`, and on one of its edges the collection is forced (`Gc.collect_limit` is written, or `collect` is
+    called) before `alloc_owned` runs."""
+    R = "E2i"
+    rep.rule(R, "a collection is attempted before an allocation is refused for the memory limit")
+    GC = "gluon_vm::gc::Gc"
+    b = next((x for i, x in fb.bodies.items() if i.startswith("gluon_vm::gc::Gc::alloc_and_collect") and x.kind == "fn" and "{closure" not in i and "::scope" not in i), None)
+    if b is None:
+        rep.anchor_lost(R, "Gc::alloc_and_collect")
+        return
+    cc = [c for c in b.calls() if c.res.endswith("Gc::check_collect")]
+    ao = [c for c in b.calls() if c.res.endswith("Gc::alloc_owned")]
+    if not cc or not ao:
+        rep.anchor_lost(R, "check_collect / alloc_owned in alloc_and_collect")
+        return
+    forced = [bb for bb, j, rv, line, kind in flow.field_writes(b, GC, "collect_limit") if kind == "assign"] + [c.bb for c in b.calls() if c.res.endswith("Gc::collect")]
+    ok = False
+    for bb, opn, lop, rop, true_t, false_t in flow.comparison_switches(b):
+        srcs = flow.sources(b, lop, depth=10) | flow.sources(b, rop, depth=10)
+        if ("field", GC, "memory_limit") in srcs and (("field", GC, "allocated_memory") in srcs):
+            for t in (true_t, false_t):
+                if t is None:
+                    continue
+                region = b.reachable(t, avoid_blocks=[c.bb for c in ao])
+                if any(f in region for f in forced) and all(b.dominates(bb, c.bb) for c in ao):
+                    ok = True
+    if ok:
+        rep.ok(R, "alloc_and_collect: when allocated_memory + size reaches memory_limit a collection is forced before alloc_owned decides")
+    else:
+        rep.violation(R, "oom-without-collection", "Gc::alloc_and_collect lets alloc_owned refuse an allocation for the memory limit without first forcing a collection: once collect_limit "
+                      "exceeds memory_limit the garbage of a failed run is never collected and every later program fails with OutOfMemory", b.where())
+
+
 def run(fb, rep, tier, cfg):
     rep.explanation = (
         "Static analysis of gluon_vm's resolved MIR (rustc_private driver, -Zmir-opt-level=0). Decides structural "
@@ -746,5 +783,6 @@ def run(fb, rep, tier, cfg):
     e2e(fb, rep)
     e2f(fb, rep)
     e2g(fb, rep)
+    e2i(fb, rep)
     from . import e2d
     e2d.run(fb, rep)
